@@ -9,10 +9,10 @@ CHECKS = {
          "Every query of the plain bitvector is compared with an independent sorted-set model on generated bit sequences that are directed at the internal regimes (short/long select superblocks for ones and zeros, partial words/blocks, many superblocks), built through 11 public routes; every bit string up to length 12 (16 thorough) is enumerated with every argument; 1 (3 thorough) piecewise periodic vectors of 2^32..2^33 bits per build configuration are compared with closed formulas around zone edges and 2^31/2^32/2^33. Held-on-everything-explored, not a proof.",
          "Trusts the reference model (binary search on a sorted position list) and rustc; generated vectors limited to 450k bits quick / 2M bits thorough; above 20k bits arguments are structural edges + sampled.", "DESIGN.md §3 C01"),
  "C08": ("exploration", "program-level property-based testing (generated call programs with arbitrary arguments over an object heap) under process-level monitors (std unsafe-precondition checks, signals) with per-case worker isolation; coverage-guided libFuzzer+ASan campaign of the same interpreter in the thorough tier",
-         "Generated programs call every safe entry point of every structure with arbitrary arguments (tail offsets, extreme indexes, arbitrary iterator scripts, arbitrary builder sequences, stale supports, reloads, mapped views at structure starts / outside the file / on truncated files). Panics are legal; the process must survive with every unchecked slice access checked against the slice length by the standard library's precondition checks, under release arithmetic and under overflow checks; mapped views must lie inside the map.",
+         "Generated programs call every safe entry point of every structure with arbitrary arguments (tail offsets, extreme indexes, arbitrary iterator scripts, arbitrary builder sequences, stale and fresh supports through their public building blocks, conversions into plain vectors also from multisets, reloads, byte vectors read back as strings, mapped views at structure starts / outside the file / on truncated files). Panics are legal; a str that is not UTF-8 is a violation; the process must survive with every unchecked slice access checked against the slice length by the standard library's precondition checks, under release arithmetic and under overflow checks; mapped views must lie inside the map.",
          "The monitor sees accesses outside a slice, not logically-wrong accesses inside one; unsafe fns are called only within their contracts; allocation sizes are bounded.", "DESIGN.md §3 C08"),
  "C20": ("exploration", "stress testing with generated thread/call configurations and a process-wide uniqueness invariant over the whole call history (schedules sampled by the OS, not enumerated)",
-         "Generated bursts (2..64 threads x up to 5000 calls, barrier released, 16 bursts concurrently) call temp_file_name; the invariant - no path ever returned twice in the process, every path contains the caller's name part - is checked over the complete history. This family cannot own the schedule of an unmodified atomic; the bursts were measured to expose a load+store counter in 20/20 rounds.",
+         "Generated bursts (2..64 threads x up to 5000 calls, barrier released, 16 bursts concurrently; name parts empty, long, non-ASCII, with dots and spaces) call temp_file_name, and in 30% of the cases fresh child processes make their very first calls from 2..16 spinning threads at once; the invariant - no path ever returned twice in the process, every path contains the caller's name part - is checked over the complete history. This family cannot own the schedule of an unmodified atomic; the bursts were measured to expose a load+store counter in 20/20 rounds.",
          "Schedules are sampled, not enumerated: a lost update needing a rarer interleaving than the bursts provoke can be missed; replay re-samples schedules.", "DESIGN.md §3 C20"),
  "C09": ("exploration", "property-based testing with extreme-argument generators against the documented out-of-range answers and the reference models, three-type differential, in two arithmetic configurations with per-case process isolation",
          "Every query of the three bitvector types, of huge sparse / run-length vectors, of the wavelet matrix and its core is asked at {0,1,len-1,len,len+1,2len,count+-1,2^63,MAX-1,MAX,...} and must give the documented answer without panicking; nth/nth_back beyond the remainder must exhaust fresh, partly consumed and positioned iterators; constructors must accept exactly the valid widths. Run with overflow checks on (a wrapped addition is a panic) and with release arithmetic + std unsafe-precondition checks (a wrapped addition is a wrong answer or an abort), each case in a worker process.",
@@ -39,10 +39,10 @@ CHECKS = {
          "Files of 1..6 concatenated mappable structures (both mapping modes) are mapped structure by structure: content must equal the in-memory value through every accessor, views must tile the file exactly, six out-of-file offsets per structure must be refused with Err (not a panic), and for every truncation the cut structure must be refused while earlier ones still map.",
          "Views are only requested at structure starts or outside the file; large files are truncated around structure boundaries and at generated points.", "DESIGN.md §3 C13"),
  "C14": ("fault_enumeration", "fault injection with complete enumeration of fault points per generated structure: every strict prefix for load/skip_option, every write budget for serialize, every element truncation for mapped views, every RLIMIT_FSIZE value for the file writers",
-         "For each generated structure every fault point of each kind is executed against an outcome predicate (Err, never a panic or a value; the sink's own error with a prefix written; refusal of cut views; writers never report success for an incomplete file). Cases run in single-threaded worker processes because the file-size limit is process wide.",
+         "For each generated structure every fault point of each kind is executed against an outcome predicate (Err, never a panic or a value; the sink's own error with a prefix written; refusal of cut views; writers and serialize_to never report success for an incomplete file, also after a caught push panic or a failed close). Cases run in single-threaded worker processes because the file-size limit is process wide.",
          "Faults are permanent within one execution; file-size limits stand in for other write errors; structures above 3000 bytes are cut at element boundaries +-1.", "DESIGN.md §3 C14"),
  "C19": ("exploration", "model-based property testing over enable/serialize/load/clone histories with a support-set model, plus differential loading of support-stripped composite files and skip_option position checks",
-         "Histories over the plain bitvector's support structures are interpreted against a set model (supports reported, bits unchanged, enabled queries correct after every step, load preserves exactly the written subset, final value canonical); sparse vectors / wavelet matrices / cores re-encoded without any embedded support must load equal to the original; skip_option must stop exactly at a marker after any optional value.",
+         "Histories over the plain bitvector's support structures are interpreted against a set model (supports reported, bits unchanged, enabled queries correct after every step, load preserves exactly the written subset, final value canonical); sparse vectors / wavelet matrices / cores re-encoded with none or with a generated subset of the embedded support structures per bitvector (also wrapped in an Option) must load and answer the query plan like the original; skip_option must stop exactly at a marker after any optional value.",
          "Support stripping relies on the harness's document-only codec; only enabled queries are asked.", "DESIGN.md §3 C19"),
  "C17": ("exploration", "complete enumeration of (offset,width) pairs and mask arguments + property-based testing of in-word select and helpers against bit-by-bit references, in three build configurations (portable and BMI2 select)",
          "read_int/write_int are executed for every (offset 0..191, width 1..64) with 9 value/background combinations and compared bit by bit (field and all other bits); select for every rank of structured and generated words under both the portable and the PDEP implementation; masks for all n; bit_len/reverse_low/rounding helpers against u128 arithmetic.",
@@ -60,7 +60,7 @@ CHECKS = {
          "Every step of every generated history over RawVector and IntVector is followed by a comparison of length, every backing word (so stale bits beyond the end are visible), count_ones, reads, and equality + byte-identical serialization with vectors rebuilt from the model by two other routes.",
          "Trusts the bit-by-bit model; vectors stay small (<= ~25k bits / 300 items) so that complete comparison after each step is affordable, except 3 (9 thorough) periodic vectors beyond 2^32 bits per configuration that are compared with closed formulas; capacity is not asserted.", "DESIGN.md §3 C05"),
  "C07": ("exploration", "differential testing against an independent codec written only from SERIALIZATION.md (decoder + encoder), both directions, plus byte identity where the document leaves no choice",
-         "The library's bytes for generated structures of every documented type are decoded by the harness's own codec and must give the generator's model content while satisfying the document's requirements; the codec's own encodings (supports absent, any admissible sparse low width, any sufficient sample width) must load and answer every query per the reference models; codec bytes must equal library bytes with supports stripped wherever the document leaves no choice, which exposes changes made symmetrically to serialize and load.",
+         "The library's bytes for generated structures of every documented type are decoded by the harness's own codec and must give the generator's model content while satisfying the document's requirements; the codec's own encodings (supports absent, any admissible sparse low width, any sufficient sample width) and the library's files with any subset of supports kept per embedded bitvector must load and answer every query per the reference models; codec bytes must equal library bytes with supports stripped wherever the document leaves no choice, which exposes changes made symmetrically to serialize and load.",
          "Trusts the harness codec as a faithful reading of the document; support structures are opaque; sparse w=64 and multiset loading are excluded (see assumptions).", "DESIGN.md §3 C07"),
  "C06": ("exploration", "round-trip property testing over values of every Serialize type (type-erased), concatenated streams, short-read readers",
          "1..6 generated values of every serializable type (incl. all 8 support subsets, nested options, huge sparse universes, multisets) are written back to back; sizes must be exact, header+body = serialize, and sequential loading through a reader that returns short reads must give equal values that answer a fixed query plan identically and must consume exactly each value's bytes; file variants agree.",
